@@ -114,6 +114,9 @@ func (e *Exec) unknownInvoke(st *State, fr *Frame, cc *ssa.CallCommon, in ssa.In
 			args = append(args, e.val(st, fr, a))
 		}
 		key := nt.Obj().Pkg().Path() + "." + nt.Obj().Name() + "." + name
+		if rs, ok := e.cryptoInvoke(st, fr, iv, name, args, in, rt); ok {
+			return rs
+		}
 		if h, ok := invokeIntrinsics[key]; ok {
 			e.UsedIntrinsics[key] = true
 			return h(e, st, fr, args, in, rt)
@@ -918,6 +921,26 @@ func (e *Exec) stringToRunes(st *State, fr *Frame, in ssa.Instruction, s *String
 		}
 		return e.constScalarSlice(st, types.Typ[types.Int32], vals, "runes")
 	}
+	// a string of concrete length whose bytes are all provably below 0x80 is ASCII: one rune per byte
+	if bs, ok := e.asciiBytes(st, s); ok {
+		es := e.elemSort(types.Typ[types.Int32])
+		vals := make([]*Term, len(bs))
+		for i, b := range bs {
+			if e.IntMode {
+				vals[i] = b
+			} else {
+				vals[i] = e.C.ZExt(b, 32)
+			}
+		}
+		r := e.constScalarSlice(st, types.Typ[types.Int32], make([]int64, len(bs)), "runes")
+		if len(bs) > 0 {
+			av := e.sliceBacking(st, r)
+			nav := *av
+			nav.C = &ArrLit{Vals: vals, Rest: &ArrFill{Val: e.C.NumConst(big.NewInt(0), es)}}
+			st.Heap[r.Obj] = &nav
+		}
+		return r
+	}
 	// []rune(s): uninterpreted decoding; length <= len(s)
 	e.UsedIntrinsics["[]rune(string) (uninterpreted utf-8 decoding, len <= len(s))"] = true
 	sl := e.freshSliceObj(st, types.Typ[types.Int32], "runes")
@@ -926,6 +949,34 @@ func (e *Exec) stringToRunes(st *State, fr *Frame, in ssa.Instruction, s *String
 	st.assume(e.C.Eq(sl.Cap, sl.Len))
 	st.assume(e.C.Not(sl.Nil))
 	return sl
+}
+
+// asciiBytes: the bytes of a string of concrete length (at most 256) when every one is provably < 0x80 on this path.
+func (e *Exec) asciiBytes(st *State, s *StringVal) ([]*Term, bool) {
+	if !s.Len.IsConst() || !s.Len.C.IsInt64() || s.Len.C.Int64() > 256 {
+		return nil, false
+	}
+	n := int(s.Len.C.Int64())
+	bs := make([]*Term, n)
+	goal := e.C.True()
+	for i := range bs {
+		bs[i] = e.sel(s.C, e.C.Add(s.Off, e.idx(int64(i))))
+		if e.IntMode {
+			goal = e.C.And(goal, e.C.ILt(bs[i], e.C.Inti(0x80)))
+		} else {
+			goal = e.C.And(goal, e.C.ULt(bs[i], e.C.BVu(0x80, 8)))
+		}
+	}
+	if goal.IsTrue() {
+		return bs, true
+	}
+	if goal.IsFalse() || st.Record != nil && false {
+		return nil, false
+	}
+	if !e.quickValid(st, goal) {
+		return nil, false
+	}
+	return bs, true
 }
 
 func (e *Exec) runesToString(st *State, fr *Frame, in ssa.Instruction, s *SliceVal) Val {
